@@ -62,6 +62,7 @@ type Case struct {
 	Blobs      []Blob    `json:"blobs"`
 	SyncOrder  []int     `json:"syncOrder"`           // order in which nodes run their start-up sync
 	Concurrent bool      `json:"concurrent"`          // all nodes sync at once instead
+	OddDirs    bool      `json:"oddDirs,omitempty"`   // node directories with glob / regexp metacharacters in their names
 	SplitDirs  bool      `json:"splitDirs,omitempty"` // the shard manager's directory differs from the node's root directory
 	Fault      Fault     `json:"fault"`
 }
@@ -117,6 +118,7 @@ func genCase(t *rapid.T) Case {
 	c.SyncOrder = rapid.Permutation(seq(c.Total)).Draw(t, "order")
 	c.Concurrent = rapid.IntRange(0, 3).Draw(t, "concurrent") == 0
 	c.SplitDirs = rapid.IntRange(0, 2).Draw(t, "splitDirs") == 0
+	c.OddDirs = rapid.IntRange(0, 2).Draw(t, "oddDirs") == 0
 	if rapid.IntRange(0, 2).Draw(t, "fault") == 0 {
 		c.Fault = Fault{Kind: "chunk", Call: rapid.IntRange(1, 4).Draw(t, "fcall"), Chunk: rapid.SampledFrom([]int{-1, 0, 1, 1, 2}).Draw(t, "fchunk")}
 	} else {
@@ -155,12 +157,20 @@ func seq(n int) []int {
 
 type env struct {
 	dir      string
+	oddDirs  bool
 	shardSub string // sub-directory of the node root that holds the shard files ("" = the node root)
 	specs    []drive.NodeSpec
 	nodes    []*cluster.ClusterNode
 }
 
-func (e *env) root(k int) string { return filepath.Join(e.dir, fmt.Sprintf("node%d", k)) }
+func (e *env) root(k int) string {
+	if e.oddDirs {
+		// characters that mean something to glob patterns, regular expressions or shells but are ordinary in a
+		// directory name
+		return filepath.Join(e.dir, fmt.Sprintf("no[d]e*%d? (x)", k))
+	}
+	return filepath.Join(e.dir, fmt.Sprintf("node%d", k))
+}
 
 func (e *env) shardRoot(k int) string { return filepath.Join(e.root(k), e.shardSub) }
 
@@ -290,7 +300,11 @@ func execCase(c Case) (res vt.Result) {
 	e := &env{dir: dir, nodes: make([]*cluster.ClusterNode, c.Total)}
 	if c.SplitDirs {
 		e.shardSub = "shards"
+		if c.OddDirs {
+			e.shardSub = "sh[a]rds*"
+		}
 	}
+	e.oddDirs = c.OddDirs
 	for k := 0; k < c.Total; k++ {
 		host := drive.LoopbackHost(k + 1)
 		e.specs = append(e.specs, drive.NodeSpec{Host: host, Port: drive.FreePort(host)})
